@@ -30,6 +30,42 @@ def textbook():
     return (("textbook",), mkspec("textbook", I + G))
 
 
+# two concrete multi-output circuits on which the ordering of overlapping supergates fails (known finding, hash-seed dependent)
+KNOWN = {
+    "rnd284": {"name": "rnd284", "nodes": [["i0", "input", False], ["i1", "input", False], ["i2", "input", False], ["i3", "input", False], ["g0", "nor", True], ["g1", "xnor", True], ["g2", "xor", True], ["g3", "and", False], ["g4", "xor", False], ["g5", "or", True]],
+               "edges": [["i3", "g0"], ["i0", "g0"], ["i2", "g0"], ["i1", "g0"], ["g0", "g1"], ["i0", "g1"], ["g0", "g2"], ["i1", "g2"], ["g2", "g3"], ["g0", "g3"], ["g0", "g4"], ["i3", "g4"], ["g3", "g4"], ["g4", "g5"], ["g0", "g5"]], "bbs": {}},
+    "rnd69": {"name": "rnd69", "nodes": [["i0", "input", False], ["i1", "input", False], ["i2", "input", False], ["i3", "input", False], ["k0", "0", False], ["k1", "1", False], ["g0", "xor", False], ["g1", "nor", False], ["g2", "not", True], ["g3", "xor", False], ["g4", "and", False], ["g5", "nor", True], ["g6", "buf", False], ["g7", "or", True], ["g8", "or", True], ["g9", "buf", False], ["g10", "or", True], ["g11", "buf", True]],
+              "edges": [["i1", "g0"], ["i3", "g0"], ["i0", "g1"], ["k0", "g1"], ["i2", "g1"], ["i3", "g1"], ["i0", "g2"], ["g1", "g3"], ["i3", "g3"], ["k0", "g3"], ["g0", "g3"], ["k0", "g4"], ["g0", "g4"], ["g2", "g5"], ["k1", "g5"], ["k1", "g6"], ["k0", "g7"], ["g6", "g7"], ["g0", "g7"], ["g3", "g8"], ["g4", "g8"], ["g6", "g8"], ["k1", "g9"], ["g6", "g10"], ["g9", "g10"], ["g7", "g10"], ["g9", "g11"]], "bbs": {}},
+}
+
+
+def shared_logic(A):
+    """known-finding predicate: two different outputs whose cones share a gate (multi-output circuit with shared logic)"""
+    g = A.digraph()
+    cones = []
+    for o in sorted(A.outputs()):
+        cones.append({n for n in ({o} | nx.ancestors(g, o)) if A.types[n] != "input"})
+    for i in range(len(cones)):
+        for j in range(i + 1, len(cones)):
+            if cones[i] & cones[j]:
+                return True
+    return False
+
+
+def mutual_dependency(nets):
+    """root cause of the known finding: the returned blocks overlap such that the block-dependency graph (B -> A when an input
+    of A is an internal node of B) is cyclic, i.e. NO listing order of these blocks is topological"""
+    internal = [set(n.nodes()) - n.inputs() for n in nets]
+    dep = nx.DiGraph()
+    dep.add_nodes_from(range(len(nets)))
+    for a, n in enumerate(nets):
+        for i in n.inputs():
+            for b in range(len(nets)):
+                if b != a and i in internal[b]:
+                    dep.add_edge(b, a)
+    return not nx.is_directed_acyclic_graph(dep)
+
+
 def all_cases(ctx):
     from cgv.props.C03 import x_cases
     cs = [textbook()] + F.f_shape() + F.f_unit(5) + x_cases() + F.f_rand(ctx.seed, 30 if ctx.quick else 300)
@@ -38,6 +74,7 @@ def all_cases(ctx):
         cs += [(("rand24", ctx.seed, i), F.rand_dag(random.Random(f"c17-24-{ctx.seed}-{i}"), n_in=5, n_gates=24, max_arity=3, name=f"r24_{i}")) for i in range(40)]
         cs += F.f_small(2)
     cs.append((("lib", "c17"), "lib:c17"))
+    cs += [(("known", k), v) for k, v in sorted(KNOWN.items())]
     return cs
 
 
@@ -69,7 +106,8 @@ def run(ctx):
 def check_list(ctx, tx, A, spec, det):
     sgs, e = call(tx.supergates, build(spec))
     if e is not None:
-        ctx.side("supergates-raises", False, sig_raise(e), f"supergates raised {e!r}", det)
+        sig = "supergates:multi-output-shared-logic:block-order-cycle" if (type(e).__name__ == "NetworkXUnfeasible" and shared_logic(A)) else sig_raise(e)
+        ctx.side("supergates-raises", False, sig, f"supergates raised {e!r}", det)
         return
     nets = [Net.of(s) for s in sgs]
     ctx.count("supergates", len(nets))
@@ -115,7 +153,14 @@ def check_list(ctx, tx, A, spec, det):
         miss = [i for i in n.inputs() if i not in val]
         if miss:
             order_ok = False
-            ctx.side("supergates-order", False, "supergates:not-topological", f"supergate {sorted(n.outputs())} uses {miss[:3]} before any earlier supergate produces it", det)
+            produced_anywhere = set()
+            for n2 in nets:
+                produced_anywhere |= set(n2.nodes()) - n2.inputs()
+            # known finding: in a multi-output circuit with shared logic the minimal cover drops the block of a helper gate of the
+            # fan-in-limited circuit, so a block input is produced by NO returned block (any other order failure is reported)
+            dropped = [i for i in miss if i not in produced_anywhere and i not in A.types]
+            ctx.side("supergates-order", False, "supergates:multi-output-shared-logic:uncovered-helper-gate" if (shared_logic(A) and dropped) else "supergates:not-topological",
+                     f"supergate {sorted(n.outputs())} uses {miss[:3]} before any earlier supergate produces it", det)
             break
         fv = S.fn(n, {i: val[i] for i in n.free()})
         for v in n.nodes():
